@@ -18,6 +18,7 @@ through the real `core_ports.load` with persisted data {"enabled": true, "value"
 Commands: ["Tick"], ["Advance", ms], ["SetSource", p, v], ["CompleteRead", p, "val"|"skip"|"err"],
 ["CompleteWrite", p, "ok"|"exc"], ["ApiWrite", p, v], ["SetSequence", p, values, delays, repeat], ["SetAttr", p, n] (display_name := "n<n>"; runs a polling pass), ["Reset", p],
 ["CancelWaitingReader", p] (cancels one reset() task that waits in p's read guard, if any),
+["Disable", p] / ["Enable", p] (PATCH /ports/p {"enabled": ...} through the real patch_port), ["SetExpr", p, text],
 ["Load", p, v].
 
 Events (per port; see coq/theories/C14/Model.v):
@@ -27,6 +28,8 @@ Events (per port; see coq/theories/C14/Model.v):
   ["ReadCancel", src]                                  a caller cancelled while waiting in the read guard
   ["Told", t, "ok"|"exc"|"qf", "api"|"expr"|"seq"]     transform_and_write_value returned / raised to that submitter
   ["ApiTold", t, bool]                                 patch_port_value answered 204/202 (true) or an error (false)
+  ["Disable"] ["Enable"]                               disable()/enable() changed _enabled
+  ["Discard", t]                                       an entry left the queue neither by the write loop nor by the overflow rule
 """
 import asyncio
 import json
@@ -146,14 +149,34 @@ class Env:
                     t = port.futs.get(id(fut), (-1, None))[0]
                     if asyncio.current_task() is port._write_value_task:
                         env.run.log(port.get_id(), 'WriteTake', num(value), t)
-                    else:
+                    elif port.cur_ticket is not None:
+                        # inside _write_value_queued, after put_nowait raised QueueFull: the overflow rule
                         if port.pending_drop is not None:
                             env.run.anomaly(port.get_id(), 'two entries dequeued by one submission')
                         port.pending_drop = t
+                    else:
+                        # anybody else taking entries out of the queue
+                        env.run.log(port.get_id(), 'Discard', t)
                     return item
 
                 q.put_nowait = put_nowait
                 q.get_nowait = get_nowait
+
+            async def enable(self):
+                was = self.is_enabled()
+                try:
+                    return await super().enable()
+                finally:
+                    if self.is_enabled() != was:
+                        env.run.log(self.get_id(), 'Enable' if self.is_enabled() else 'Disable')
+
+            async def disable(self):
+                was = self.is_enabled()
+                try:
+                    return await super().disable()
+                finally:
+                    if self.is_enabled() != was:
+                        env.run.log(self.get_id(), 'Enable' if self.is_enabled() else 'Disable')
 
             def _src(self):
                 return 'pass' if asyncio.current_task() in env.run.update_depth else 'load'
@@ -487,6 +510,16 @@ class Run:
             p = self.ports.get(cmd[1])
             if p is not None:
                 self.spawn(p.set_attr('display_name', 'n%s' % cmd[2]), 'SetAttr %s' % cmd[1])
+        elif name in ('Disable', 'Enable'):
+            pid = cmd[1]
+            if pid in self.ports:
+                params = {'enabled': name == 'Enable'}
+                h = env.handler('PATCH', '/api/ports/%s' % pid, json.dumps(params).encode())
+                self.spawn(env.api_ports.patch_port(h, pid, params), '%s %s' % (name, pid))
+        elif name == 'SetExpr':
+            p = self.ports.get(cmd[1])
+            if p is not None:
+                self.spawn(p.set_attr('expression', cmd[2]), 'SetExpr %s' % cmd[1])
         elif name == 'Reset':
             p = self.ports.get(cmd[1])
             if p is not None:
